@@ -46,9 +46,9 @@ ASSUMPTIONS = [
 ]
 PLAN = {
     "quick": {"pairs": "quick", "extra_pairs": 30, "triples": 16, "parts": 4, "cpu": 1.0, "cpu_hostile": 0.3,
-              "max_timeouts": 20, "shards": 128},
+              "max_timeouts": 12, "shards": 128},
     "thorough": {"pairs": "all", "extra_pairs": 0, "triples": 400, "parts": 16, "cpu": 3.0, "cpu_hostile": 0.3,
-                 "max_timeouts": 120, "shards": 512},
+                 "max_timeouts": 25, "shards": 512},
 }
 REG = dict(level="exploration", min_nontrivial=20000, max_inconc=0.02,
            technique="differential runtime monitor: every application form of the same (callable, arguments) evaluated in "
@@ -552,6 +552,9 @@ def finish(sh, c, t, fs, vd):
         sh.count("agree:value" if vd.ok_base else "agree:all-raise")
     else:
         sh.count("disagree")
+    if vd.status == "held" and vd.ok_base and len(sh.samples) < 4 and len(t) >= 2 and not any(a in ("i0", "i1") for a in t):
+        sh.sample({"callable": c.key, "args": {a: pool.BY_NAME[a][1] for a in t}, "forms": [s for _, s in fs],
+                   "verdict": "all %d forms returned the same canonical value" % len(fs)}, cap=4)
     if vd.fallback:
         sh.count("order-insensitive-match")
         sh.count("order-insensitive-match:" + c.key)
